@@ -1,5 +1,6 @@
 SPECIFICATION Spec
 CONSTANTS
+  ShtabBreaksDefaults = {"A"}
   ClearOnError = FALSE
   Full = FALSE
   Emit = FALSE
